@@ -57,7 +57,7 @@ THEOREMS = [
 MODES = [("packrat", 0), ("packrat", 1), ("packrat", 2), ("packrat", 128), ("packrat", None)]
 ENTRIES = [("parse", ()), ("parseAll", ()), ("scan", (100, True, False)), ("scan", (100, False, True)), ("transform", ())]
 
-SHARING = dict(n_leaves=2, n_comp=7, p_reuse=0.92, forwards=0, actions=0.0, ws_variants=0.0, ignore=0.0, set_name=0.25,
+SHARING = dict(n_leaves=2, n_comp=7, p_reuse=0.92, forwards=0, actions=0.0, ws_variants=0.0, ignore=0.0, set_name=0.25, names=0.3,
                leaf_kinds=[("Word", 3), ("WordIB", 1), ("Literal", 3)],
                comp_kinds=[("+", 6), ("|", 5), ("^", 2), ("Opt", 4), ("ZeroOrMore", 3), ("OneOrMore", 1), ("Group", 1),
                            ("~", 1), ("FollowedBy", 1), ("And3", 2), ("MatchFirst3", 1)])
@@ -145,6 +145,38 @@ def gen_jobs(ctx, tag, n, cfg_kw, n_inputs, extra_inputs=()):
     return jobs
 
 
+def name_backtrack_jobs(ctx, n):
+    """template stream: one shared, named first element used by several alternative sequences; a later element of an
+    alternative that fails late carries the same name (plain or list-all) - the shape where an in-place merge into a
+    cached or memoised result would show"""
+    jobs = []
+    for i in range(n):
+        r = random.Random(f"C02-{ctx.seed}-nb-{i}")
+        names = ["item", "item*", "x", "x*"]
+        prog = [["k0", "Word", "ab"], ["k", "name", "k0", r.choice(names)], ["a0", "Word", "ab"],
+                ["a", "name", "a0", r.choice(names)], ["b0", "Word", "ab"]]
+        prog.append(["b", "name", "b0", r.choice(names)] if r.random() < 0.5 else ["b", "copy", "b0"])
+        prog.append(["t", "Literal", r.choice(["x", ";", "+"])])
+        kk = "k"
+        if r.random() < 0.3:
+            prog.append(["kg", r.choice(["Group", "Opt", "OneOrMore"]), "k"])
+            kk = "kg"
+        prog.append(["s1", "And", [kk, "a", "t"]])
+        prog.append(["s2", "And", [kk, "b"]] if r.random() < 0.7 else ["s2", "copy", kk])
+        alts = ["s1", "s2"]
+        if r.random() < 0.3:
+            prog.append(["s3", "And", [kk, "a", "b", "t"]])
+            alts = ["s3"] + alts
+        prog.append(["root", r.choice(["MatchFirst", "Or"]), alts])
+        if r.random() < 0.3:
+            prog.append(["rr", "OneOrMore", "root"])
+            root = "rr"
+        else:
+            root = "root"
+        jobs.append(dict(prog=prog, root=root, inputs=["a b", "a b x", "ab", "a b ;", "a b b", "a b a b x", "a"]))
+    return jobs
+
+
 def corpus_jobs():
     out = []
     d = common.VERIF / "corpus" / "C02"
@@ -197,6 +229,8 @@ def run(ctx):
     if ctx.broken and not ctx.fail_inputs:
         mult = 5  # something no longer checks: search harder for a concrete failing input
     run_oracle(ctx, "oracle:general", gen_jobs(ctx, "og", ctx.budget(350, 3500) * mult, {}, 5))
+    run_oracle(ctx, "oracle:name-backtrack", name_backtrack_jobs(ctx, ctx.budget(400, 4000) * mult))
+    run_oracle(ctx, "oracle:names", gen_jobs(ctx, "on", ctx.budget(700, 7000) * mult, dict(names=0.45, p_reuse=0.7), 5))
     run_oracle(ctx, "oracle:sharing", gen_jobs(ctx, "os", ctx.budget(700, 7000) * mult, SHARING, 4, ["c", "a c", "ab c", " c"]))
     ctx.assumptions.append("C02: exception messages and aliasing are decided by the real-code oracle, not by a theorem; "
                            "element classes outside the parse model are covered by the oracle only")
